@@ -21,6 +21,7 @@ class Unk:
     def __init__(self, why, node=None, definite=False):
         self.why = why
         self.line = getattr(node, 'lineno', None)
+        self.exc = None               # for "always raises": the name of the exception, when known
         self.definite = definite      # True: a definite structural error (axis roles), not a modelling gap
 
     def __repr__(self):
@@ -306,7 +307,15 @@ class Interp:
         if sig[0] == 'raise':
             if self.depth > 0:
                 raise Raised(fi, sig[1])          # the calling statement raises too
-            return Unk('%s always raises on this configuration (line %s)' % (fi.qual, getattr(sig[1], 'lineno', '?')), sig[1])
+            u_ = Unk('%s always raises on this configuration (line %s)' % (fi.qual, getattr(sig[1], 'lineno', '?')), sig[1])
+            # which exception: the class named by the raise statement, or the library exception that escaped
+            rz_ = sig[1]
+            if isinstance(rz_, ast.Raise) and rz_.exc is not None:
+                x_ = rz_.exc.func if isinstance(rz_.exc, ast.Call) else rz_.exc
+                u_.exc = (chain(x_) or '').split('.')[-1] or None
+            else:
+                u_.exc = (self.uncaught or '').split(':')[0] or None
+            return u_
         return None
 
     # ------------------------------------------------------------------ statements
@@ -753,6 +762,9 @@ class Interp:
             return list(itv) if len(itv) <= 64 else None
         if isinstance(itv, GenList):
             return itv.elem
+        if isinstance(itv, Arr) and itv.ndim >= 1 and itv.dims[0] and itv.mask is None and self.axis_len.get(itv.dims[0], 99) <= 16:
+            # the configuration fixes the length of this axis: one iteration per position
+            return [Arr(itv.dims[1:], alg.index_at(itv.poly, itv.dims[0], num(k_)), None, itv.unit) for k_ in range(self.axis_len[itv.dims[0]])]
         if isinstance(itv, Arr) and itv.ndim >= 1 and itv.dims[0]:
             return Arr(itv.dims[1:], itv.poly, itv.mask, itv.unit)       # generic element (label stays free)
         if isinstance(itv, _WhereIdx):
@@ -1426,6 +1438,16 @@ class Interp:
         vals = [self._as_arr(x) for x in lst]
         if len(vals) == 1 and isinstance(vals[0], Arr) and vals[0].ndim == 0:
             return Arr((None,), vals[0].poly, unit=vals[0].unit)
+        if len(vals) <= 64 and all(isinstance(v, Arr) and v.ndim == 0 and v.mask is None for v in vals) and len({repr(v.unit) for v in vals}) <= 1:
+            # a list of scalars made into an array: a fresh axis of that many positions, element k being the k-th scalar
+            self._n_lists = getattr(self, '_n_lists', 0) + 1
+            lab = 'pos#%d' % self._n_lists
+            self.axis_len[lab] = len(vals)
+            run = alg.sym('idx:' + lab, lab)
+            p = Poly()
+            for k_, v in enumerate(vals):
+                p = p + alg.mk_ind('==0', run - num(k_)) * v.poly
+            return Arr((lab,), p, unit=vals[0].unit if vals else num(1))
         return Unk('list literal as array')
 
     def _as_arr(self, v):
@@ -1847,6 +1869,9 @@ class Interp:
                     newlab = '%s[%s]' % (lab, ':'.join('' if x is None else alg.show(x.poly, 200) for x in sl))
                     poly = alg.array_fn('slice', lab, poly, *args, out=newlab)
                     dims.append(newlab)
+                    if (lab is None or lab in self.axis_len) and all(x is None or (x.poly.is_const() and x.poly.const_value().denominator == 1) for x in sl) and (sl[2] is None or sl[2].poly.const_value() != 0):
+                        # a slice with fixed bounds of an axis of known length (an unlabelled axis has one position) has a known length
+                        self.axis_len[newlab] = len(range(*slice(*[None if x is None else int(x.poly.const_value()) for x in sl]).indices(1 if lab is None else self.axis_len[lab])))
                 ax += 1
                 continue
             if w is None:         # np.newaxis / None
@@ -2254,6 +2279,10 @@ class Interp:
                 x = args[0]
                 if isinstance(x, (list, tuple)):
                     return self._list_to_arr(x)
+                if isinstance(x, Foreign) and hasattr(x, 'as_value'):
+                    x = x.as_value()
+                if isinstance(x, Fraction) and last in ('int32', 'int64'):
+                    return int(x)
                 if isinstance(x, (Arr, int, float)):
                     return self._as_arr(x) if last not in ('int32', 'int64') else self._int(x, e)
                 if isinstance(x, GenList) and last in ('array', 'asarray') and isinstance(x.elem, Arr) and x.elem.mask is None and x.label not in x.elem.dims:
@@ -2296,6 +2325,11 @@ class Interp:
                                                  'positions on the full axis: the two index spaces differ whenever an unselected element precedes a selected one' % (lab, sel[0].what), e, mod.path))
                     return Unk('index spaces mixed in %s' % last, e, definite=True)
                 return Unk('hstack', e)
+            if last == 'isreal' and len(args) == 1:
+                x = args[0]
+                if isinstance(x, Arr) or (_is_pynum(x) and not isinstance(x, complex)):
+                    return True            # the arrays modelled here hold real numbers
+                return Unk('np.isreal(%r)' % (x,), e)
             if last == 'isscalar':
                 x = args[0]
                 if isinstance(x, Arr):
@@ -2467,6 +2501,17 @@ class Interp:
                         return Unk('dict(%r)' % (args[0],), e)
                 d_.update(kw)
                 return d_
+            if last == 'format' and len(args) == 2 and isinstance(args[1], str) and not kw:
+                if isinstance(args[0], (str, int, float)) and not isinstance(args[0], bool):
+                    try:
+                        return format(args[0], args[1])
+                    except (ValueError, TypeError) as ex_:
+                        raise PyRaise(type(ex_).__name__, str(ex_))
+                if isinstance(args[0], (Arr, Foreign)):
+                    r_ = _brace_format('{0:%s}' % args[1], [args[0]])          # format(v, spec) is '{0:spec}'.format(v)
+                    if r_ is not None:
+                        return r_
+                return Unk('format(%r, %r)' % (args[0], args[1]), e)
             if last == 'sorted' and args and isinstance(args[0], (list, tuple, dict)) and not kw and all(isinstance(x_, (str, int, float)) for x_ in args[0]):
                 return sorted(args[0])
             if last == 'reversed' and args and isinstance(args[0], (list, tuple)):
@@ -2576,7 +2621,7 @@ class Interp:
         if isinstance(v, (list, tuple)):
             return bool({'list', 'tuple'} & set(names))
         if isinstance(v, Foreign) and set(names) <= {'str', 'int', 'float', 'bool', 'list', 'tuple', 'dict', 'bytes', 'NoneType', 'ndarray', 'Quantity'}:
-            return False          # a modelled library object is none of the plain data types
+            return bool(set(names) & set(getattr(v, 'py_types', ())))          # a modelled library object is none of the plain data types, unless it says so
         if isinstance(v, Arr):
             if 'Quantity' in names and len(names) == 1:
                 if v.unit is None:
@@ -2745,6 +2790,9 @@ class Interp:
                     return getattr(recv, name)(*args, **kw)        # a string method on concrete strings: computed
                 except Exception as ex_:
                     raise PyRaise(type(ex_).__name__, str(ex_))
+            if name == 'format' and not kw and any(isinstance(a_, (Arr, Foreign)) for a_ in args) and all(isinstance(a_, (Arr, Foreign, str, int, float)) for a_ in args):
+                r_ = _brace_format(recv, args)
+                return r_ if r_ is not None else Unk('str.format with fields the analyser does not translate: %r' % recv[:40], e)
             if name == 'join' and len(args) == 1 and isinstance(args[0], (list, tuple)) and all(isinstance(x_, (str, Fmt)) for x_ in args[0]):
                 # pieces formatted from symbolic values joined into one string: the values are kept, in order
                 f_, v_ = '', ()
@@ -2830,6 +2878,28 @@ class _WhereIdx:
         """positions[k] for an index array k"""
         p = self.positions()
         return Arr(k.dims, alg.mk_fn('at', B(p.dims[0], p.poly), P(k.poly)), unit=num(1))
+
+
+def _brace_format(fmt, args):
+    """'...{0:9.5f}...'.format(values) with symbolic values as the equivalent %-formatted text (fields of the simple width.precision-type kind only)"""
+    import string as _string, re as _re
+    out, vals, auto = '', [], 0
+    try:
+        for lit, field, spec, conv in _string.Formatter().parse(fmt):
+            out += lit.replace('%', '%%')
+            if field is None:
+                continue
+            if conv or not _re.match(r'^\d*$', field) or not _re.match(r'^(\d*)(\.\d+)?([sdfeEgGi]?)$', spec or ''):
+                return None
+            k_ = int(field) if field else auto
+            auto += 1
+            if k_ >= len(args):
+                return None
+            out += '%' + (spec if spec and spec[-1].isalpha() else (spec or '') + 's')
+            vals.append(args[k_])
+    except ValueError:
+        return None
+    return Fmt(out, tuple(vals))
 
 
 class _Cols(list):
